@@ -3,78 +3,87 @@
    overflow thread spawned by iwtp_schedule is NOT registered by the code, finds idx == -1 and exits at once.
    [chk] selects the variant of iwtp_schedule: false = the code as found (no look at tp->shutdown),
    true = fixes/exec-tp-shutdown.diff (IW_ERROR_INVALID_STATE once shutdown is set, as iwtp.h documents).
+   [reg]: false = the code as found (overflow thread not pushed to tp->threads: it finds idx == -1 and leaves at once, it is
+   never joined), true = fixes/exec-tp-overflow-register.diff (pushed: it runs at most one task, then unregisters and
+   detaches itself unless shutdown is set, in which case iwtp_shutdown joins it).
    No proofs in this file. *)
 Require Import List Bool Arith.
 Require Import IW.CC.Lts.
 Import ListNotations.
 
-Record cfg := mkcfg { nthreads : nat; limit : nat; ovf : nat; chk : bool }.
+Record cfg := mkcfg { nthreads : nat; limit : nat; ovf : nat; chk : bool; reg : bool }.
 
 Inductive pcT :=
 | Idle | Start | Locked               (* client: between calls, before/after pthread_mutex_lock *)
 | PEnq | PSp | PSig                   (* iwtp_schedule: linked, overflow thread created, cond signalled *)
-| QB | QJoin (k : nat) | QFreed       (* iwtp_shutdown *)
+| QB | QJoin | QFreed                 (* iwtp_shutdown; QJoin: joining the threads of the cloned list jl *)
 | Ret (rc : nat) (sched : bool)
 | TStart | TReg                       (* _worker_fn prologue: lock, find idx, unlock *)
 | TTop | TL1 | TDeq | TU1t | TRun | TU1 | TL2 | TWait | TWoken | TExit | TDead.
 
-Record thr := mkt { pc : pcT; fn : nat; tk : task; wf : bool }.
-Definition setpc (th : thr) (p : pcT) : thr := mkt p (fn th) (tk th) (wf th).
+Record thr := mkt { pc : pcT; fn : nat; tk : task; wf : bool; jl : list tid }.
+Definition setpc (th : thr) (p : pcT) : thr := mkt p (fn th) (tk th) (wf th) (jl th).
 
 Record st := mk {
   queue : list task; qsize : nat; busy : nat; shut : bool;
   owner : option tid; waitc : list tid;
+  regs : list tid;      (* tp->threads *)
+  workers : list tid;   (* ghost: every thread that was started with _worker_fn *)
   th : tid -> thr;
   used : list task; enq : list task; done : list task; disc : list task; acc : list task; started : list task;
   shut_wait : bool; freed : bool; uaf : bool
 }.
 
 Definition set_queue (s : st) (v : list task) : st :=
-  mk v (qsize s) (busy s) (shut s) (owner s) (waitc s) (th s) (used s) (enq s) (done s) (disc s) (acc s) (started s) (shut_wait s) (freed s) (uaf s).
+  mk v (qsize s) (busy s) (shut s) (owner s) (waitc s) (regs s) (workers s) (th s) (used s) (enq s) (done s) (disc s) (acc s) (started s) (shut_wait s) (freed s) (uaf s).
 Definition set_qsize (s : st) (v : nat) : st :=
-  mk (queue s) v (busy s) (shut s) (owner s) (waitc s) (th s) (used s) (enq s) (done s) (disc s) (acc s) (started s) (shut_wait s) (freed s) (uaf s).
+  mk (queue s) v (busy s) (shut s) (owner s) (waitc s) (regs s) (workers s) (th s) (used s) (enq s) (done s) (disc s) (acc s) (started s) (shut_wait s) (freed s) (uaf s).
 Definition set_busy (s : st) (v : nat) : st :=
-  mk (queue s) (qsize s) v (shut s) (owner s) (waitc s) (th s) (used s) (enq s) (done s) (disc s) (acc s) (started s) (shut_wait s) (freed s) (uaf s).
+  mk (queue s) (qsize s) v (shut s) (owner s) (waitc s) (regs s) (workers s) (th s) (used s) (enq s) (done s) (disc s) (acc s) (started s) (shut_wait s) (freed s) (uaf s).
 Definition set_shut (s : st) (v : bool) : st :=
-  mk (queue s) (qsize s) (busy s) v (owner s) (waitc s) (th s) (used s) (enq s) (done s) (disc s) (acc s) (started s) (shut_wait s) (freed s) (uaf s).
+  mk (queue s) (qsize s) (busy s) v (owner s) (waitc s) (regs s) (workers s) (th s) (used s) (enq s) (done s) (disc s) (acc s) (started s) (shut_wait s) (freed s) (uaf s).
 Definition set_owner (s : st) (v : option tid) : st :=
-  mk (queue s) (qsize s) (busy s) (shut s) v (waitc s) (th s) (used s) (enq s) (done s) (disc s) (acc s) (started s) (shut_wait s) (freed s) (uaf s).
+  mk (queue s) (qsize s) (busy s) (shut s) v (waitc s) (regs s) (workers s) (th s) (used s) (enq s) (done s) (disc s) (acc s) (started s) (shut_wait s) (freed s) (uaf s).
 Definition set_waitc (s : st) (v : list tid) : st :=
-  mk (queue s) (qsize s) (busy s) (shut s) (owner s) v (th s) (used s) (enq s) (done s) (disc s) (acc s) (started s) (shut_wait s) (freed s) (uaf s).
+  mk (queue s) (qsize s) (busy s) (shut s) (owner s) v (regs s) (workers s) (th s) (used s) (enq s) (done s) (disc s) (acc s) (started s) (shut_wait s) (freed s) (uaf s).
+Definition set_regs (s : st) (v : list tid) : st :=
+  mk (queue s) (qsize s) (busy s) (shut s) (owner s) (waitc s) v (workers s) (th s) (used s) (enq s) (done s) (disc s) (acc s) (started s) (shut_wait s) (freed s) (uaf s).
+Definition set_workers (s : st) (v : list tid) : st :=
+  mk (queue s) (qsize s) (busy s) (shut s) (owner s) (waitc s) (regs s) v (th s) (used s) (enq s) (done s) (disc s) (acc s) (started s) (shut_wait s) (freed s) (uaf s).
 Definition set_th (s : st) (v : tid -> thr) : st :=
-  mk (queue s) (qsize s) (busy s) (shut s) (owner s) (waitc s) v (used s) (enq s) (done s) (disc s) (acc s) (started s) (shut_wait s) (freed s) (uaf s).
+  mk (queue s) (qsize s) (busy s) (shut s) (owner s) (waitc s) (regs s) (workers s) v (used s) (enq s) (done s) (disc s) (acc s) (started s) (shut_wait s) (freed s) (uaf s).
 Definition set_used (s : st) (v : list task) : st :=
-  mk (queue s) (qsize s) (busy s) (shut s) (owner s) (waitc s) (th s) v (enq s) (done s) (disc s) (acc s) (started s) (shut_wait s) (freed s) (uaf s).
+  mk (queue s) (qsize s) (busy s) (shut s) (owner s) (waitc s) (regs s) (workers s) (th s) v (enq s) (done s) (disc s) (acc s) (started s) (shut_wait s) (freed s) (uaf s).
 Definition set_enq (s : st) (v : list task) : st :=
-  mk (queue s) (qsize s) (busy s) (shut s) (owner s) (waitc s) (th s) (used s) v (done s) (disc s) (acc s) (started s) (shut_wait s) (freed s) (uaf s).
+  mk (queue s) (qsize s) (busy s) (shut s) (owner s) (waitc s) (regs s) (workers s) (th s) (used s) v (done s) (disc s) (acc s) (started s) (shut_wait s) (freed s) (uaf s).
 Definition set_done (s : st) (v : list task) : st :=
-  mk (queue s) (qsize s) (busy s) (shut s) (owner s) (waitc s) (th s) (used s) (enq s) v (disc s) (acc s) (started s) (shut_wait s) (freed s) (uaf s).
+  mk (queue s) (qsize s) (busy s) (shut s) (owner s) (waitc s) (regs s) (workers s) (th s) (used s) (enq s) v (disc s) (acc s) (started s) (shut_wait s) (freed s) (uaf s).
 Definition set_disc (s : st) (v : list task) : st :=
-  mk (queue s) (qsize s) (busy s) (shut s) (owner s) (waitc s) (th s) (used s) (enq s) (done s) v (acc s) (started s) (shut_wait s) (freed s) (uaf s).
+  mk (queue s) (qsize s) (busy s) (shut s) (owner s) (waitc s) (regs s) (workers s) (th s) (used s) (enq s) (done s) v (acc s) (started s) (shut_wait s) (freed s) (uaf s).
 Definition set_acc (s : st) (v : list task) : st :=
-  mk (queue s) (qsize s) (busy s) (shut s) (owner s) (waitc s) (th s) (used s) (enq s) (done s) (disc s) v (started s) (shut_wait s) (freed s) (uaf s).
+  mk (queue s) (qsize s) (busy s) (shut s) (owner s) (waitc s) (regs s) (workers s) (th s) (used s) (enq s) (done s) (disc s) v (started s) (shut_wait s) (freed s) (uaf s).
 Definition set_started (s : st) (v : list task) : st :=
-  mk (queue s) (qsize s) (busy s) (shut s) (owner s) (waitc s) (th s) (used s) (enq s) (done s) (disc s) (acc s) v (shut_wait s) (freed s) (uaf s).
+  mk (queue s) (qsize s) (busy s) (shut s) (owner s) (waitc s) (regs s) (workers s) (th s) (used s) (enq s) (done s) (disc s) (acc s) v (shut_wait s) (freed s) (uaf s).
 Definition set_shut_wait (s : st) (v : bool) : st :=
-  mk (queue s) (qsize s) (busy s) (shut s) (owner s) (waitc s) (th s) (used s) (enq s) (done s) (disc s) (acc s) (started s) v (freed s) (uaf s).
+  mk (queue s) (qsize s) (busy s) (shut s) (owner s) (waitc s) (regs s) (workers s) (th s) (used s) (enq s) (done s) (disc s) (acc s) (started s) v (freed s) (uaf s).
 Definition set_freed (s : st) (v : bool) : st :=
-  mk (queue s) (qsize s) (busy s) (shut s) (owner s) (waitc s) (th s) (used s) (enq s) (done s) (disc s) (acc s) (started s) (shut_wait s) v (uaf s).
+  mk (queue s) (qsize s) (busy s) (shut s) (owner s) (waitc s) (regs s) (workers s) (th s) (used s) (enq s) (done s) (disc s) (acc s) (started s) (shut_wait s) v (uaf s).
 Definition set_uaf (s : st) (v : bool) : st :=
-  mk (queue s) (qsize s) (busy s) (shut s) (owner s) (waitc s) (th s) (used s) (enq s) (done s) (disc s) (acc s) (started s) (shut_wait s) (freed s) v.
+  mk (queue s) (qsize s) (busy s) (shut s) (owner s) (waitc s) (regs s) (workers s) (th s) (used s) (enq s) (done s) (disc s) (acc s) (started s) (shut_wait s) (freed s) v.
 Definition set_thr (s : st) (t : tid) (x : thr) : st := set_th s (upd (th s) t x).
 
 Definition init (c : cfg) : st :=
-  mk [] 0 0 false None [] (fun t => if t <? nthreads c then mkt TStart 0 0 false else mkt Idle 0 0 false)
+  mk [] 0 0 false None [] (seq 0 (nthreads c)) (seq 0 (nthreads c))
+     (fun t => if t <? nthreads c then mkt TStart 0 0 false [] else mkt Idle 0 0 false [])
      [] [] [] [] [] [] false false false.
 
 Definition do_lock (s : st) (t : tid) : st := set_uaf (set_owner s (Some t)) (uaf s || freed s).
 
 (* `tp->queue_limit && (tp->queue_size + 1 > tp->queue_limit)` *)
 Definition full (c : cfg) (s : st) : bool := negb (limit c =? 0) && (limit c <? qsize s + 1).
-(* queue_size > 1 && num_threads_busy >= num_threads && iwulist_length(&threads) < num_threads * (1 + factor);
-   the length of tp->threads stays num_threads *)
+(* queue_size > 1 && num_threads_busy >= num_threads && iwulist_length(&threads) < num_threads * (1 + factor) *)
 Definition spawn_cond (c : cfg) (s : st) : bool :=
-  (1 <? qsize s) && (nthreads c <=? busy s) && (nthreads c <? nthreads c * (1 + ovf c)).
+  (1 <? qsize s) && (nthreads c <=? busy s) && (length (regs s) <? nthreads c * (1 + ovf c)).
 
 Definition unlock_to (s : st) (t : tid) (x : thr) (p : pcT) : option st :=
   Some (set_thr (set_owner s None) t (setpc x p)).
@@ -87,8 +96,8 @@ Definition step (c : cfg) (s : st) (t : tid) (e : ev) : option st :=
       | ECall f k w =>
           if t <? nthreads c then None
           else if f =? 0 then
-            if memb k (used s) then None else Some (set_thr (set_used s (k :: used s)) t (mkt Start 0 k w))
-          else if (f =? 3) || (f =? 4) then Some (set_thr s t (mkt Start f 0 w))
+            if memb k (used s) then None else Some (set_thr (set_used s (k :: used s)) t (mkt Start 0 k w []))
+          else if (f =? 3) || (f =? 4) then Some (set_thr s t (mkt Start f 0 w []))
           else None
       | _ => None
       end
@@ -121,14 +130,20 @@ Definition step (c : cfg) (s : st) (t : tid) (e : ev) : option st :=
             end
   | TExit => match e with EExit => Some (set_thr s t (setpc x TDead)) | _ => None end
   | TDead => None
-  | QJoin k =>
-      if k <? nthreads c then
-        match e with
-        | EJoin j => if j =? k then match pc (th s k) with TDead => Some (set_thr s t (setpc x (QJoin (S k)))) | _ => None end
-                     else None
-        | _ => None
-        end
-      else match e with EFree => Some (set_thr (set_freed s true) t (setpc x QFreed)) | _ => None end
+  | QJoin =>
+      match jl x with
+      | k :: rest =>
+          match e with
+          | EJoin j => if j =? k then
+                         match pc (th s k) with
+                         | TDead => Some (set_thr s t (mkt QJoin (fn x) (tk x) (wf x) rest))
+                         | _ => None
+                         end
+                       else None
+          | _ => None
+          end
+      | [] => match e with EFree => Some (set_thr (set_freed s true) t (setpc x QFreed)) | _ => None end
+      end
   | QFreed => match e with
               | ERet rc sc => if (rc =? 0) && negb sc then Some (set_thr s t (setpc x Idle)) else None
               | _ => None
@@ -163,7 +178,7 @@ Definition step (c : cfg) (s : st) (t : tid) (e : ev) : option st :=
                      | EBcast k => if k =? 0 then
                          let s1 := set_shut_wait (set_shut s true) (wf x) in
                          let s2 := if wf x then s1 else set_qsize (set_disc (set_queue s1 []) (disc s ++ queue s)) 0 in
-                         Some (set_thr (set_waitc s2 []) t (setpc x QB))
+                         Some (set_thr (set_waitc s2 []) t (mkt QB (fn x) (tk x) (wf x) (regs s)))
                          else None
                      | _ => None
                      end
@@ -175,7 +190,10 @@ Definition step (c : cfg) (s : st) (t : tid) (e : ev) : option st :=
               match e with
               | ESpawn ch => if (nthreads c <=? ch) && negb (ch =? t) then
                   match pc (th s ch) with
-                  | Idle => Some (set_thr (set_thr s ch (mkt TStart 0 0 false)) t (setpc x PSp))
+                  | Idle =>
+                      let s1 := set_workers s (workers s ++ [ch]) in
+                      let s2 := if reg c then set_regs s1 (regs s ++ [ch]) else s1 in
+                      Some (set_thr (set_thr s2 ch (mkt TStart 0 0 false [])) t (setpc x PSp))
                   | _ => None
                   end else None
               | _ => None
@@ -198,14 +216,14 @@ Definition step (c : cfg) (s : st) (t : tid) (e : ev) : option st :=
             | _ => None
             end
         | PSig => match e with EUnlock => unlock_to s t x (Ret RC_OK true) | _ => None end
-        | QB => match e with EUnlock => unlock_to s t x (QJoin 0) | _ => None end
-        | TReg => match e with EUnlock => unlock_to s t x (if t <? nthreads c then TTop else TExit) | _ => None end
+        | QB => match e with EUnlock => unlock_to s t x QJoin | _ => None end
+        | TReg => match e with EUnlock => unlock_to s t x (if memb t (regs s) then TTop else TExit) | _ => None end
         | TL1 =>
             match e with
             | EDeq k =>
                 match queue s with
                 | y :: q => if k =? y then
-                    Some (set_thr (set_qsize (set_queue s q) (pred (qsize s))) t (mkt TDeq (fn x) k (wf x))) else None
+                    Some (set_thr (set_qsize (set_queue s q) (pred (qsize s))) t (mkt TDeq (fn x) k (wf x) (jl x))) else None
                 | [] => None
                 end
             | EUnlock => if is_nil (queue s) then unlock_to s t x TU1 else None
@@ -213,7 +231,12 @@ Definition step (c : cfg) (s : st) (t : tid) (e : ev) : option st :=
             end
         | TDeq => match e with EUnlock => unlock_to s t x TU1t | _ => None end
         | TL2 =>
-            if nthreads c <=? t then match e with EUnlock => unlock_to s t x TExit | _ => None end
+            if nthreads c <=? t then
+              (* overflow thread: `if (!tp->shutdown) { remove from tp->threads; detach }`, unlock, leave *)
+              match e with
+              | EUnlock => unlock_to (if shut s then s else set_regs s (remove1 t (regs s))) t x TExit
+              | _ => None
+              end
             else if negb (is_nil (queue s)) then match e with EUnlock => unlock_to s t x TTop | _ => None end
             else if shut s then match e with EUnlock => unlock_to s t x TExit | _ => None end
             else match e with
@@ -239,4 +262,4 @@ Definition hidden (c : cfg) (s : st) (t : tid) : option ev :=
 (* task held by thread t between dequeue and the return of fn *)
 Definition held1 (s : st) (t : tid) : list task :=
   match pc (th s t) with TDeq | TU1t | TRun => [tk (th s t)] | _ => [] end.
-Definition held (c : cfg) (s : st) : list task := flat_map (held1 s) (seq 0 (nthreads c)).
+Definition held (s : st) : list task := flat_map (held1 s) (workers s).
